@@ -31,7 +31,7 @@ TIERS = {
     "thorough": {"shards": 16, "cases": 1600, "max_ratio": 3e4, "timeout": 3400},
 }
 FLOORS = {
-    "quick": {"counts": {"segments_measured": 100000, "constant_speed_shapes": 150,
+    "quick": {"counts": {"segments_measured": 100000, "requests_after_other_shapes_on_the_same_builder": 40, "constant_speed_shapes": 150,
                          "halving_comparisons": 250, "unit_switch_checks": 300, "steep_ramps_to_zero": 15}, "keys": 40},
     "thorough": {"counts": {"segments_measured": 3000000, "constant_speed_shapes": 800}, "keys": 60},
 }
